@@ -443,7 +443,7 @@ func Config(r Rand, executor string) world.Config {
 	c.MaxLoad = []float64{0, 0.5, 0.95, 1.0, 0.3}[r.Intn(5)]
 	c.ShuffleReaders = r.Chance(0.5)
 	c.DelaySeed = r.Uint64() % 1000000
-	c.DelayProfile = r.PickS("mixed", "mixed", "ns", "wide", "none")
+	c.DelayProfile = r.PickS("mixed", "mixed", "ns", "ns", "wide")
 	c.UserDelays = r.Chance(0.5)
 	c.RTSeed = r.Uint64() % 1000000
 	// The combiner hash table is sized by the chunk size and must be a power of two.
